@@ -6,7 +6,8 @@
   candidate list — the unbounded quantifiers (any hierarchy, any iteration order π of the subclass set, hence any
   definition order) are closed here by a cardinality argument; (C) the same statements for `fromDict` on instances;
   (D) `save_dc_types`; (E) regression examples of the repaired finding, and the open finding D16: full statement,
-  witness, named exclusion.
+  witness, named exclusion; (R) the class table (`resolve`, `descendants`, flag inheritance) and the identified clause
+  restated over it; (E3)/(E4) the open findings `C14-frozen-noninit-setattr` and `C14-nested-drop-forwarding`.
 -/
 import Batteries.Data.List.Perm
 import SpVerif.Model.Subclass
@@ -130,6 +131,20 @@ def Identifies (flds : α → List Str) (cands : List α) (d : α) : Prop :=
 theorem subset_of_card_le (a b : List Str) (hn : a.Nodup) (hab : a ⊆ b) (hl : b.length ≤ a.length) : b ⊆ a :=
   ((subperm_of_subset hn hab).perm_of_length_le hl).symm.subset
 
+/-- **Superset clause, sharpened.**  Whatever class is chosen — identified or not, whatever the order — has EXACTLY the
+    field-name set of `d` (cardinality argument: it sorts no later than `d` and contains `d`'s fields). -/
+theorem pick_same_set (flds : α → List Str) (cands : List α) (req : List Str) (d c : α)
+    (hd : d ∈ cands) (hnd : (flds d).Nodup)
+    (hsub : Covers flds d req) (hfull : ∀ c ∈ cands, Covers flds c req → flds d ⊆ flds c)
+    (hc : pick flds cands req = some c) : flds d ⊆ flds c ∧ flds c ⊆ flds d := by
+  have ⟨hcm, hcc⟩ := c14_superset flds cands req c hc
+  have hle : (flds c).length ≤ (flds d).length := by
+    unfold pick at hc
+    exact find_first_le (fun c => (flds c).length) _ _ (sortByKey_sorted _ cands) c d hc
+      ((sortByKey_perm _ cands).symm.subset hd) ((covers_iff flds d req).mpr hsub)
+  have hdc : flds d ⊆ flds c := hfull c hcm hcc
+  exact ⟨hdc, subset_of_card_le _ _ hnd hdc hle⟩
+
 /-- **Central theorem (identified clause).**  If `d` has every required key, every candidate having the required keys
     has all of `d`'s fields (the required keys are `d`'s serialized keys minus fields every candidate inherits), and no
     other candidate has the same field set, the choice is `d` — for EVERY order `cands` of the candidate set (the iteration
@@ -139,14 +154,8 @@ theorem c14_identified_pick (flds : α → List Str) (cands : List α) (req : Li
     (hsub : Covers flds d req) (hfull : ∀ c ∈ cands, Covers flds c req → flds d ⊆ flds c)
     (huniq : Identifies flds cands d) : pick flds cands req = some d := by
   obtain ⟨c, hc⟩ := c14_superset_exists flds cands req d hd hsub
-  have ⟨hcm, hcc⟩ := c14_superset flds cands req c hc
-  have hle : (flds c).length ≤ (flds d).length := by
-    unfold pick at hc
-    exact find_first_le (fun c => (flds c).length) _ _ (sortByKey_sorted _ cands) c d hc
-      ((sortByKey_perm _ cands).symm.subset hd) ((covers_iff flds d req).mpr hsub)
-  have hdc : flds d ⊆ flds c := hfull c hcm hcc
-  have hcd : flds c ⊆ flds d := subset_of_card_le _ _ hnd hdc hle
-  have : c = d := huniq c hcm (fun k => ⟨fun h => hcd h, fun h => hdc h⟩)
+  have ⟨hdc, hcd⟩ := pick_same_set flds cands req d c hd hnd hsub hfull hc
+  have : c = d := huniq c (c14_superset flds cands req c hc).1 (fun k => ⟨fun h => hcd h, fun h => hdc h⟩)
   rw [hc, this]
 
 /-- **Order freedom.** In the identified case the chosen class does not depend on the iteration order of the
@@ -185,6 +194,12 @@ example : Identifies (fun c => match c with | 1 => ["a".toList] | 2 => ["a".toLi
 
 /-! ### (C) `from_dict` on flat instances -/
 
+def fInt (n : String) (init : Bool := true) : Field := ⟨n.toList, init, .prim, some (.int 0)⟩
+
+def mkCls (n : String) (parent : Option Nat) (dis : Option Bool) (own : List Field) (frozen : Bool := false)
+    (mixin : Bool := false) : Cls :=
+  { name := n.toList, parent := parent, dis := dis, own := own, frozen := frozen, mixin := mixin }
+
 /-- the field values of an instance whose fields are all `int`: `x` gives the value of each field name -/
 def valOf (x : Str → Int) (F : List Field) : List (Str × Val) := F.map (fun f => (f.name, Val.int (x f.name)))
 
@@ -199,18 +214,24 @@ theorem encKV_valOf (R : List RCls) (save : Bool) (x : Str → Int) (F : List Fi
     simp only [valOf, rawOf, map_cons, encKV, encV] at ih ⊢
     rw [ih]
 
-theorem lookup_rawOf (x : Str → Int) (F : List Field) (f : Field) (hf : f ∈ F) :
-    lookupKey f.name (rawOf x F) = some (J.int (x f.name)) := by
+/-- a serialized key is found with the value of that name (whichever class declared the field) -/
+theorem lookup_rawOf_name (x : Str → Int) (F : List Field) (k : Str) (hk : k ∈ F.map (·.name)) :
+    lookupKey k (rawOf x F) = some (J.int (x k)) := by
   induction F with
-  | nil => cases hf
+  | nil => cases hk
   | cons g gs ih =>
     simp only [rawOf, map_cons, lookupKey]
-    by_cases hg : g.name = f.name
+    by_cases hg : g.name = k
     · simp [hg]
     · simp only [hg, if_false]
-      rcases mem_cons.mp hf with rfl | hf
-      · exact absurd rfl hg
-      · exact ih hf
+      simp only [map_cons, mem_cons] at hk
+      rcases hk with hk | hk
+      · exact absurd hk.symm hg
+      · exact ih hk
+
+theorem lookup_rawOf (x : Str → Int) (F : List Field) (f : Field) (hf : f ∈ F) :
+    lookupKey f.name (rawOf x F) = some (J.int (x f.name)) :=
+  lookup_rawOf_name x F f.name (mem_map.mpr ⟨f, hf, rfl⟩)
 
 theorem lookup_rawOf_none (x : Str → Int) (F : List Field) (k : Str) (hk : k ∉ F.map (·.name)) :
     lookupKey k (rawOf x F) = none := by
@@ -262,12 +283,48 @@ theorem construct_all (x : Str → Int) (F : List Field) (args : List (Str × Va
 theorem rawOf_keys (x : Str → Int) (F : List Field) : (rawOf x F).map (·.1) = F.map (·.name) := by
   simp [rawOf]
 
+/-- `setattr` of the decoded `init=False` fields succeeds: the class is not frozen, or it has no `init=False` field
+    (named decidable exclusion of the open finding `C14-frozen-noninit-setattr`) -/
+def Settable (rc : RCls) : Prop := rc.frozen = false ∨ ∀ f ∈ rc.fields, f.init = true
+
+instance (rc : RCls) : Decidable (Settable rc) := by unfold Settable; infer_instance
+
+theorem settable_ok (rc : RCls) (decoded : List (Str × Val)) (h : Settable rc) :
+    (rc.frozen && nonInitGiven rc.fields decoded) = false := by
+  rcases h with h | h
+  · simp [h]
+  · have : nonInitGiven rc.fields decoded = false := by
+      unfold nonInitGiven
+      apply List.any_eq_false.mpr
+      intro f hf
+      simp [h f hf]
+    simp [this]
+
+/-- **A dict whose keys are all fields of `c` and that has every field of `c` is loaded as exactly `c`** — with any
+    `drop_extra_fields`, any subclasses, any order: no key is left over, so the subclass search is never entered
+    (serializable.py:860) and the constructor gets every argument (never `RuntimeError`). -/
+theorem load_exact (R : List RCls) (π : Nat → List Nat) (fuel : Nat) (c : Nat) (rc : RCls) (kv : List (Str × J))
+    (x : Str → Int) (drop : Option Bool)
+    (hc : R[c]? = some rc) (hset : Settable rc) (hty : lookupKey typeKey kv = none)
+    (hp : ∀ f ∈ rc.fields, f.ty = .prim)
+    (hk : ∀ f ∈ rc.fields, lookupKey f.name kv = some (J.int (x f.name)))
+    (hno : ∀ k ∈ kv.map (·.1), k ∈ rc.fields.map (·.name)) :
+    fromDict R π (fuel + 1) c (.obj kv) drop = .ok (.inst c (valOf x rc.fields)) := by
+  simp only [fromDict, hty, hc]
+  rw [decodeFields_prim _ _ kv x rc.fields hp hk]
+  have hno' : (kv.map (·.1)).filter (fun k => !(rc.fields.map (·.name)).contains k) = [] := by
+    apply filter_eq_nil_iff.mpr; intro k hk'; simpa using hno k hk'
+  simp only [hno', isEmpty_nil, Bool.true_or, if_true]
+  rw [construct_all x rc.fields _ (fun f hf => lookup_valOf x rc.fields f hf)]
+  simp only [settable_ok rc _ hset, Bool.false_eq_true, if_false]
+
 /-- **Drop clause.** With `drop_extra_fields` in effect (given as `True`, or `None` on a class that does not decode
     into subclasses) and no `_type_` key, the result is EXACTLY the base class, its own fields kept, every unknown
     key dropped — whatever the unknown keys are and whatever subclasses exist. -/
 theorem c14_drop (R : List RCls) (π : Nat → List Nat) (fuel : Nat) (b : Nat) (rb : RCls) (kv : List (Str × J))
     (x : Str → Int) (drop : Option Bool)
-    (hb : R[b]? = some rb) (hdrop : drop.getD (!rb.dis) = true)
+    (hb : R[b]? = some rb) (hset : Settable rb)
+    (hdrop : drop.getD (if rb.mixin then false else !rb.dis) = true)
     (hty : lookupKey typeKey kv = none) (hp : ∀ f ∈ rb.fields, f.ty = .prim)
     (hk : ∀ f ∈ rb.fields, lookupKey f.name kv = some (J.int (x f.name))) :
     fromDict R π (fuel + 1) b (.obj kv) drop = .ok (.inst b (valOf x rb.fields)) := by
@@ -275,50 +332,46 @@ theorem c14_drop (R : List RCls) (π : Nat → List Nat) (fuel : Nat) (b : Nat) 
   rw [decodeFields_prim _ true kv x rb.fields hp hk]
   simp only [Bool.or_true, if_true]
   rw [construct_all x rb.fields _ (fun f hf => lookup_valOf x rb.fields f hf)]
+  simp only [settable_ok rb _ hset, Bool.false_eq_true, if_false]
 
-example : fromDict (resolve [⟨"B".toList, none, some false, [⟨"a".toList, true, .prim, some (.int 1)⟩]⟩]) (fun _ => []) 1 0
+example : fromDict (resolve [mkCls "B" none (some false) [fInt "a"]]) (fun _ => []) 1 0
     (.obj [("a".toList, .int 5), ("zz".toList, .int 7)]) none = .ok (.inst 0 [("a".toList, .int 5)]) := by rfl
 
-/-- the hypotheses under which a derived class `D` is loaded through its base `b` (flat, `int` fields) -/
-structure Derived (R : List RCls) (b D : Nat) (rb rD : RCls) (ext : List Field) : Prop where
+/-- the hypotheses under which an instance of a derived class `D` is loaded through its base `b` (flat, `int` fields).
+    `names`: children extend parents — the field NAMES of the base are a prefix of those of the derived class (a child
+    may redeclare an inherited field; its position is kept, see `inheritFields`); `extn` are the names `D` adds. -/
+structure Derived (R : List RCls) (b D : Nat) (rb rD : RCls) (extn : List Str) : Prop where
   hb : R[b]? = some rb
   hD : R[D]? = some rD
-  /-- children extend parents -/
-  extends_ : rD.fields = rb.fields ++ ext
+  names : rD.fields.map (·.name) = rb.fields.map (·.name) ++ extn
+  primB : ∀ f ∈ rb.fields, f.ty = .prim
   prim : ∀ f ∈ rD.fields, f.ty = .prim
   nodup : (rD.fields.map (·.name)).Nodup
   noTypeKey : typeKey ∉ rD.fields.map (·.name)
+  settable : Settable rD
 
 theorem initNames_eq (R : List RCls) (c : Nat) (rc : RCls) (h : R[c]? = some rc) :
     initNames R c = (rc.fields.filter (·.init)).map (·.name) := by
   simp [initNames, h]
 
-theorem mem_filter_names (F : List Field) (k : Str) (p : Str → Bool) :
-    k ∈ (F.map (·.name)).filter p ↔ ∃ f ∈ F, f.name = k ∧ p k = true := by
-  simp only [mem_filter, mem_map]
-  constructor
-  · rintro ⟨⟨f, hf, rfl⟩, hp⟩; exact ⟨f, hf, rfl, hp⟩
-  · rintro ⟨f, hf, rfl, hp⟩; exact ⟨⟨f, hf, rfl⟩, hp⟩
-
-/-- the keys the candidate must have (serializable.py:880) when a `D` instance is loaded through `b`: the keys that are
-    not fields of `b`, and those of `b`'s INIT fields (the `init=False` fields of `b` are consumed and not required) -/
-def reqOf (R : List RCls) (b : Nat) (rb : RCls) (ext : List Field) (x : Str → Int) : List Str :=
-  ext.map (·.name) ++ ((valOf x rb.fields).map (·.1)).filter (fun k => (initNames R b).contains k)
-
 theorem fieldNames_eq (R : List RCls) (c : Nat) (rc : RCls) (h : R[c]? = some rc) :
     fieldNames R c = rc.fields.map (·.name) := by
   simp [fieldNames, h]
+
+/-- the keys the candidate must have (serializable.py:880) when a `D` instance is loaded through `b`: the keys that are
+    not fields of `b`, and those of `b`'s INIT fields (the `init=False` fields of `b` are consumed and not required) -/
+def reqOf (R : List RCls) (b : Nat) (rb : RCls) (extn : List Str) (x : Str → Int) : List Str :=
+  extn ++ ((valOf x rb.fields).map (·.1)).filter (fun k => (initNames R b).contains k)
 
 /-- every candidate has the fields of the class it derives from (children extend parents) -/
 def ExtendBase (R : List RCls) (cands : List Nat) (b : Nat) : Prop :=
   ∀ c ∈ cands, ∀ k ∈ fieldNames R b, k ∈ fieldNames R c
 
 /-- `D` itself has every required key — whether its extra fields are init fields or not -/
-theorem req_covered (R : List RCls) (b D : Nat) (rb rD : RCls) (ext : List Field) (x : Str → Int)
-    (h : Derived R b D rb rD ext) : Covers (fieldNames R) D (reqOf R b rb ext x) := by
-  obtain ⟨_, hD, hex, _, _, _⟩ := h
+theorem req_covered (R : List RCls) (b D : Nat) (rb rD : RCls) (extn : List Str) (x : Str → Int)
+    (h : Derived R b D rb rD extn) : Covers (fieldNames R) D (reqOf R b rb extn x) := by
   intro k hk
-  rw [fieldNames_eq R D rD hD, hex, map_append]
+  rw [fieldNames_eq R D rD h.hD, h.names]
   rcases mem_append.mp hk with hk | hk
   · exact mem_append_right _ hk
   · have hk1 := (mem_filter.mp hk).1
@@ -327,50 +380,46 @@ theorem req_covered (R : List RCls) (b D : Nat) (rb rD : RCls) (ext : List Field
     exact mem_append_left _ (mem_map.mpr ⟨f, hf, rfl⟩)
 
 /-- a subclass of `b` that has the required keys has every field of `D`, i.e. every serialized key -/
-theorem req_covers (R : List RCls) (b D : Nat) (rb rD : RCls) (ext : List Field) (x : Str → Int)
-    (h : Derived R b D rb rD ext) (c : Nat) (hcb : ∀ k ∈ fieldNames R b, k ∈ fieldNames R c)
-    (hc : Covers (fieldNames R) c (reqOf R b rb ext x)) : fieldNames R D ⊆ fieldNames R c := by
-  obtain ⟨hb, hD, hex, _, _, _⟩ := h
+theorem req_covers (R : List RCls) (b D : Nat) (rb rD : RCls) (extn : List Str) (x : Str → Int)
+    (h : Derived R b D rb rD extn) (c : Nat) (hcb : ∀ k ∈ fieldNames R b, k ∈ fieldNames R c)
+    (hc : Covers (fieldNames R) c (reqOf R b rb extn x)) : fieldNames R D ⊆ fieldNames R c := by
   intro k hk
-  rw [fieldNames_eq R D rD hD, hex, map_append] at hk
+  rw [fieldNames_eq R D rD h.hD, h.names] at hk
   rcases mem_append.mp hk with hk | hk
-  · exact hcb k (by rw [fieldNames_eq R b rb hb]; exact hk)
+  · exact hcb k (by rw [fieldNames_eq R b rb h.hb]; exact hk)
   · exact hc k (mem_append_left _ hk)
 
-/-- the first call (through the base) of `b.from_dict(to_dict(d))`: the base's own fields are consumed, the extension's
+/-- the first call (through the base) of `b.from_dict(to_dict(d))`: the base's own fields are consumed, the added
     keys are left over, and the choice among `π b` decides -/
 theorem keep_step (R : List RCls) (π : Nat → List Nat) (fuel : Nat) (b D : Nat) (rb rD : RCls)
-    (ext : List Field) (x : Str → Int) (drop : Option Bool)
-    (h : Derived R b D rb rD ext) (hkeep : drop.getD (!rb.dis) = false) (hext : ext ≠ []) :
+    (extn : List Str) (x : Str → Int) (drop : Option Bool)
+    (h : Derived R b D rb rD extn) (hkeep : drop.getD (if rb.mixin then false else !rb.dis) = false) (hext : extn ≠ []) :
     fromDict R π (fuel + 2) b (.obj (rawOf x rD.fields)) drop =
-      match pickSubclass R ((π b).filter (fun c => c ≠ b)) (reqOf R b rb ext x) with
+      match pickSubclass R ((π b).filter (fun c => c ≠ b)) (reqOf R b rb extn x) with
       | some child => fromDict R π (fuel + 1) child (.obj (rawOf x rD.fields)) (some false)
       | none => .raise "RuntimeError".toList := by
-  obtain ⟨hb, hD, hex, hprim, hnd, hnt⟩ := h
-  have hnames : rD.fields.map (·.name) = rb.fields.map (·.name) ++ ext.map (·.name) := by rw [hex, map_append]
+  obtain ⟨hb, hD, hnames, hpb, hprim, hnd, hnt, _⟩ := h
   have hnd' := hnd
   rw [hnames] at hnd'
-  have hdisj : ∀ k ∈ ext.map (·.name), k ∉ rb.fields.map (·.name) := fun k hk hk' =>
+  have hdisj : ∀ k ∈ extn, k ∉ rb.fields.map (·.name) := fun k hk hk' =>
     (nodup_append.mp hnd').2.2 k hk' k hk rfl
   have hty : lookupKey typeKey (rawOf x rD.fields) = none := lookup_rawOf_none x _ _ hnt
   have hkb : ∀ f ∈ rb.fields, lookupKey f.name (rawOf x rD.fields) = some (J.int (x f.name)) :=
-    fun f hf => lookup_rawOf x _ f (by rw [hex]; exact mem_append_left _ hf)
-  have hpb : ∀ f ∈ rb.fields, f.ty = .prim := fun f hf => hprim f (by rw [hex]; exact mem_append_left _ hf)
+    fun f hf => lookup_rawOf_name x _ f.name (by rw [hnames]; exact mem_append_left _ (mem_map.mpr ⟨f, hf, rfl⟩))
   rw [show fuel + 2 = (fuel + 1) + 1 from rfl, fromDict]
   simp only [hty, hb, hkeep]
   rw [decodeFields_prim _ false _ x rb.fields hpb hkb]
   simp only [rawOf_keys, Bool.or_false]
-  have hextras : (rD.fields.map (·.name)).filter (fun k => !(rb.fields.map (·.name)).contains k)
-      = ext.map (·.name) := by
+  have hextras : (rD.fields.map (·.name)).filter (fun k => !(rb.fields.map (·.name)).contains k) = extn := by
     rw [hnames, filter_append]
     have h1 : (rb.fields.map (·.name)).filter (fun k => !(rb.fields.map (·.name)).contains k) = [] := by
       apply filter_eq_nil_iff.mpr; intro k hk; simp [hk]
-    have h2 : (ext.map (·.name)).filter (fun k => !(rb.fields.map (·.name)).contains k) = ext.map (·.name) := by
+    have h2 : extn.filter (fun k => !(rb.fields.map (·.name)).contains k) = extn := by
       apply filter_eq_self.mpr; intro k hk; simpa using hdisj k hk
     rw [h1, h2, nil_append]
   rw [hextras]
-  have hne : (ext.map (·.name)).isEmpty = false := by
-    cases ext with
+  have hne : extn.isEmpty = false := by
+    cases extn with
     | nil => exact absurd rfl hext
     | cons e es => rfl
   simp only [hne, Bool.false_eq_true, if_false, reqOf]
@@ -380,88 +429,108 @@ theorem enc_flat (R : List RCls) (D : Nat) (x : Str → Int) (F : List Field) :
     encV R false (.inst D (valOf x F)) = .obj (rawOf x F) := by
   simp [encV, encKV_valOf]
 
-/-- **Superset clause, end to end.**  Without identification the load through `b` continues as a load through SOME strict
-    subclass `c` of the candidate set that has every field of `D` — every serialized key, `init=False` ones included. -/
-theorem c14_superset_load (R : List RCls) (π : Nat → List Nat) (fuel : Nat) (b D : Nat) (rb rD : RCls)
-    (ext : List Field) (x : Str → Int) (drop : Option Bool)
-    (h : Derived R b D rb rD ext) (hkeep : drop.getD (!rb.dis) = false) (hext : ext ≠ [])
+/-- the second call: the dict of a `D` instance loaded as a class `c` with the same field-name set -/
+theorem load_same_set (R : List RCls) (π : Nat → List Nat) (fuel : Nat) (D c : Nat) (rD rc : RCls) (x : Str → Int)
+    (drop : Option Bool) (hD : R[D]? = some rD) (hnt : typeKey ∉ rD.fields.map (·.name))
+    (hc : R[c]? = some rc) (hp : ∀ f ∈ rc.fields, f.ty = .prim) (hset : Settable rc)
+    (hDc : fieldNames R D ⊆ fieldNames R c) (hcD : fieldNames R c ⊆ fieldNames R D) :
+    fromDict R π (fuel + 1) c (.obj (rawOf x rD.fields)) drop = .ok (.inst c (valOf x rc.fields)) := by
+  rw [fieldNames_eq R D rD hD, fieldNames_eq R c rc hc] at hDc hcD
+  exact load_exact R π fuel c rc _ x drop hc hset (lookup_rawOf_none x _ _ hnt) hp
+    (fun f hf => lookup_rawOf_name x _ f.name (hcD (mem_map.mpr ⟨f, hf, rfl⟩)))
+    (fun k hk => hDc (by rw [rawOf_keys] at hk; exact hk))
+
+/-- **Superset clause, end to end.**  Without identification, `b.from_dict(to_dict(d))` (subclass decoding in effect)
+    RETURNS an instance — never `RuntimeError` — of a strict subclass `c` of the candidate set whose field-name set is
+    EXACTLY that of `D` (so it has every serialized field), with every serialized value kept; for every order `π b`. -/
+theorem c14_superset_result (R : List RCls) (π : Nat → List Nat) (fuel : Nat) (b D : Nat) (rb rD : RCls)
+    (extn : List Str) (x : Str → Int) (drop : Option Bool)
+    (h : Derived R b D rb rD extn) (hkeep : drop.getD (if rb.mixin then false else !rb.dis) = false) (hext : extn ≠ [])
     (hsubcls : ExtendBase R (π b) b) (hDπ : D ∈ π b) (hDb : D ≠ b) :
-    ∃ c, c ∈ π b ∧ c ≠ b ∧ fieldNames R D ⊆ fieldNames R c ∧
-      fromDict R π (fuel + 2) b (encV R false (.inst D (valOf x rD.fields))) drop
-        = fromDict R π (fuel + 1) c (encV R false (.inst D (valOf x rD.fields))) (some false) := by
+    ∃ c, c ∈ π b ∧ c ≠ b ∧ fieldNames R D ⊆ fieldNames R c ∧ fieldNames R c ⊆ fieldNames R D ∧
+      ∀ rc, R[c]? = some rc → (∀ f ∈ rc.fields, f.ty = .prim) → Settable rc →
+        fromDict R π (fuel + 2) b (encV R false (.inst D (valOf x rD.fields))) drop
+          = .ok (.inst c (valOf x rc.fields)) := by
   have hDc : D ∈ (π b).filter (fun c => c ≠ b) := mem_filter.mpr ⟨hDπ, by simpa using hDb⟩
-  obtain ⟨c, hc⟩ := c14_superset_exists (fieldNames R) _ (reqOf R b rb ext x) D hDc (req_covered R b D rb rD ext x h)
-  have ⟨hcm, hcc⟩ := c14_superset (fieldNames R) _ _ c hc
-  have hcm' := mem_filter.mp hcm
-  refine ⟨c, hcm'.1, by simpa using hcm'.2, req_covers R b D rb rD ext x h c (hsubcls c hcm'.1) hcc, ?_⟩
-  rw [enc_flat, keep_step R π fuel b D rb rD ext x drop h hkeep hext, pickSubclass_eq, hc]
+  have hndI : (fieldNames R D).Nodup := by rw [fieldNames_eq R D rD h.hD]; exact h.nodup
+  have hfull : ∀ c ∈ (π b).filter (fun c => c ≠ b), Covers (fieldNames R) c (reqOf R b rb extn x) →
+      fieldNames R D ⊆ fieldNames R c := fun c hc hcov =>
+    req_covers R b D rb rD extn x h c (hsubcls c (mem_filter.mp hc).1) hcov
+  obtain ⟨c, hc⟩ := c14_superset_exists (fieldNames R) _ (reqOf R b rb extn x) D hDc (req_covered R b D rb rD extn x h)
+  have hcm' := mem_filter.mp (c14_superset (fieldNames R) _ _ c hc).1
+  have ⟨h1, h2⟩ := pick_same_set (fieldNames R) _ _ D c hDc hndI (req_covered R b D rb rD extn x h) hfull hc
+  refine ⟨c, hcm'.1, by simpa using hcm'.2, h1, h2, ?_⟩
+  intro rc hrc hp hset
+  rw [enc_flat, keep_step R π fuel b D rb rD extn x drop h hkeep hext, pickSubclass_eq, hc]
+  exact load_same_set R π fuel D c rD rc x (some false) h.hD h.noTypeKey hrc hp hset h1 h2
 
 /-- **Identified clause, end to end (full strength).**  `b.from_dict(to_dict(d), drop)` with subclass decoding in effect,
     `d` an instance of a derived class `D` — its extra fields init fields or not — returns `d` itself (class `D`, same
     values) whenever no other subclass of `b` has `D`'s field set; for every iteration order `π b` of the subclass set,
     i.e. every definition order / process history, and any number of classes. -/
 theorem c14_identified (R : List RCls) (π : Nat → List Nat) (fuel : Nat) (b D : Nat) (rb rD : RCls)
-    (ext : List Field) (x : Str → Int) (drop : Option Bool)
-    (h : Derived R b D rb rD ext)
-    (hkeep : drop.getD (!rb.dis) = false)
-    (hext : ext ≠ [])
+    (extn : List Str) (x : Str → Int) (drop : Option Bool)
+    (h : Derived R b D rb rD extn)
+    (hkeep : drop.getD (if rb.mixin then false else !rb.dis) = false)
+    (hext : extn ≠ [])
     (hsubcls : ExtendBase R (π b) b) (hDπ : D ∈ π b) (hDb : D ≠ b)
     (huniq : Identifies (fieldNames R) ((π b).filter (fun c => c ≠ b)) D) :
     fromDict R π (fuel + 2) b (encV R false (.inst D (valOf x rD.fields))) drop = .ok (.inst D (valOf x rD.fields)) := by
   have hDc : D ∈ (π b).filter (fun c => c ≠ b) := mem_filter.mpr ⟨hDπ, by simpa using hDb⟩
-  have hndI : (fieldNames R D).Nodup := by
-    rw [fieldNames_eq R D rD h.hD]; exact h.nodup
-  have hfull : ∀ c ∈ (π b).filter (fun c => c ≠ b), Covers (fieldNames R) c (reqOf R b rb ext x) →
+  have hndI : (fieldNames R D).Nodup := by rw [fieldNames_eq R D rD h.hD]; exact h.nodup
+  have hfull : ∀ c ∈ (π b).filter (fun c => c ≠ b), Covers (fieldNames R) c (reqOf R b rb extn x) →
       fieldNames R D ⊆ fieldNames R c := fun c hc hcov =>
-    req_covers R b D rb rD ext x h c (hsubcls c (mem_filter.mp hc).1) hcov
-  rw [enc_flat, keep_step R π fuel b D rb rD ext x drop h hkeep hext, pickSubclass_eq,
-    c14_identified_pick (fieldNames R) _ _ D hDc hndI (req_covered R b D rb rD ext x h) hfull huniq]
-  obtain ⟨hb, hD, hex, hprim, hnd, hnt⟩ := h
-  have hty : lookupKey typeKey (rawOf x rD.fields) = none := lookup_rawOf_none x _ _ hnt
-  have hkD : ∀ f ∈ rD.fields, lookupKey f.name (rawOf x rD.fields) = some (J.int (x f.name)) :=
-    fun f hf => lookup_rawOf x _ f hf
-  simp only [fromDict, hty, hD]
-  rw [decodeFields_prim _ _ _ x rD.fields hprim hkD]
-  have hno : ((rawOf x rD.fields).map (·.1)).filter (fun k => !(rD.fields.map (·.name)).contains k) = [] := by
-    rw [rawOf_keys]; apply filter_eq_nil_iff.mpr; intro k hk; simp [hk]
-  simp only [hno, isEmpty_nil, Bool.true_or, if_true]
-  rw [construct_all x rD.fields _ (fun f hf => lookup_valOf x rD.fields f hf)]
+    req_covers R b D rb rD extn x h c (hsubcls c (mem_filter.mp hc).1) hcov
+  rw [enc_flat, keep_step R π fuel b D rb rD extn x drop h hkeep hext, pickSubclass_eq,
+    c14_identified_pick (fieldNames R) _ _ D hDc hndI (req_covered R b D rb rD extn x h) hfull huniq]
+  exact load_same_set R π fuel D D rD rD x (some false) h.hD h.noTypeKey h.hD h.prim h.settable
+    (fun _ hk => hk) (fun _ hk => hk)
 
 /-- **Order freedom, end to end**: two iteration orders of the subclass set (two process histories) give the same
     loaded instance in the identified case. -/
 theorem c14_order_free_load (R : List RCls) (π₁ π₂ : Nat → List Nat) (fuel : Nat) (b D : Nat) (rb rD : RCls)
-    (ext : List Field) (x : Str → Int) (drop : Option Bool)
-    (h : Derived R b D rb rD ext) (hkeep : drop.getD (!rb.dis) = false) (hext : ext ≠ [])
+    (extn : List Str) (x : Str → Int) (drop : Option Bool)
+    (h : Derived R b D rb rD extn) (hkeep : drop.getD (if rb.mixin then false else !rb.dis) = false) (hext : extn ≠ [])
     (hperm : (π₁ b).Perm (π₂ b)) (hsubcls : ExtendBase R (π₁ b) b) (hDπ : D ∈ π₁ b) (hDb : D ≠ b)
     (huniq : Identifies (fieldNames R) ((π₁ b).filter (fun c => c ≠ b)) D) :
     fromDict R π₁ (fuel + 2) b (encV R false (.inst D (valOf x rD.fields))) drop
       = fromDict R π₂ (fuel + 2) b (encV R false (.inst D (valOf x rD.fields))) drop := by
-  rw [c14_identified R π₁ fuel b D rb rD ext x drop h hkeep hext hsubcls hDπ hDb huniq]
+  rw [c14_identified R π₁ fuel b D rb rD extn x drop h hkeep hext hsubcls hDπ hDb huniq]
   have huniq₂ : Identifies (fieldNames R) ((π₂ b).filter (fun c => c ≠ b)) D := fun c hc =>
     huniq c (mem_filter.mpr ⟨hperm.symm.subset (mem_filter.mp hc).1, (mem_filter.mp hc).2⟩)
   have hsubcls₂ : ExtendBase R (π₂ b) b := fun c hc => hsubcls c (hperm.symm.subset hc)
-  rw [c14_identified R π₂ fuel b D rb rD ext x drop h hkeep hext hsubcls₂ (hperm.subset hDπ) hDb huniq₂]
+  rw [c14_identified R π₂ fuel b D rb rD extn x drop h hkeep hext hsubcls₂ (hperm.subset hDπ) hDb huniq₂]
+
+/-- **A derived class that adds no field** (its field names are its base's; also the load of an instance through its own
+    class, `D = b`): whatever `drop_extra_fields`, the flags and the subclasses, the result is the class loaded
+    through, with every value — the only class the serialized keys can tell. -/
+theorem c14_same_fields (R : List RCls) (π : Nat → List Nat) (fuel : Nat) (b D : Nat) (rb rD : RCls)
+    (x : Str → Int) (drop : Option Bool) (h : Derived R b D rb rD []) (hset : Settable rb) :
+    fromDict R π (fuel + 1) b (encV R false (.inst D (valOf x rD.fields))) drop = .ok (.inst b (valOf x rb.fields)) := by
+  have hn : rD.fields.map (·.name) = rb.fields.map (·.name) := by simpa using h.names
+  rw [enc_flat]
+  exact load_exact R π fuel b rb _ x drop h.hb hset (lookup_rawOf_none x _ _ h.noTypeKey) h.primB
+    (fun f hf => lookup_rawOf_name x _ f.name (by rw [hn]; exact mem_map.mpr ⟨f, hf, rfl⟩))
+    (fun k hk => by rw [rawOf_keys, hn] at hk; exact hk)
 
 /-! #### the hierarchy used by the examples and witnesses
     `B0(a)` ; `D1(B0)(x)` ; `D2(B0)(x, y)` ; `D3(B0)(n: init=False)` ; `Box(l: List[B0], f: B0, o: Optional[B0])` ;
     `D5(B0)(x, m: init=False)` (same INIT fields as `D1`, one more field) -/
 
-def fInt (n : String) (init : Bool := true) : Field := ⟨n.toList, init, .prim, some (.int 0)⟩
-
 def exH (dis : Bool) : List Cls :=
-  [ ⟨"B0".toList, none, some dis, [fInt "a"]⟩,
-    ⟨"D1".toList, some 0, none, [fInt "x"]⟩,
-    ⟨"D2".toList, some 0, none, [fInt "x", fInt "y"]⟩,
-    ⟨"D3".toList, some 0, none, [fInt "n" false]⟩,
-    ⟨"Box".toList, none, none, [⟨"l".toList, true, .list 0, some (.list [])⟩, ⟨"f".toList, true, .dc 0, some .none⟩,
-                                ⟨"o".toList, true, .opt 0, some .none⟩]⟩,
-    ⟨"D5".toList, some 0, none, [fInt "x", fInt "m" false]⟩ ]
+  [ mkCls "B0" none (some dis) [fInt "a"],
+    mkCls "D1" (some 0) none [fInt "x"],
+    mkCls "D2" (some 0) none [fInt "x", fInt "y"],
+    mkCls "D3" (some 0) none [fInt "n" false],
+    mkCls "Box" none none [⟨"l".toList, true, .list 0, some (.list [])⟩, ⟨"f".toList, true, .dc 0, some .none⟩,
+                           ⟨"o".toList, true, .opt 0, some .none⟩],
+    mkCls "D5" (some 0) none [fInt "x", fInt "m" false] ]
 
 def exR (dis : Bool) : List RCls := resolve (exH dis)
 
 /-- the hypotheses of `c14_identified` are satisfiable: `D1` through `B0`, candidates in the order `[5, 3, 2, 1]` -/
-example : Derived (exR true) 0 1 ((exR true).getD 0 default) ((exR true).getD 1 default) [fInt "x"] :=
-  ⟨rfl, rfl, rfl, by decide, by decide, by decide⟩
+example : Derived (exR true) 0 1 ((exR true).getD 0 default) ((exR true).getD 1 default) ["x".toList] :=
+  ⟨rfl, rfl, rfl, by decide, by decide, by decide, by decide, Or.inl rfl⟩
 example : ExtendBase (exR true) [5, 3, 2, 1] 0 := by
   intro c hc k hk
   have hc' : c = 5 ∨ c = 3 ∨ c = 2 ∨ c = 1 := by simpa using hc
@@ -521,7 +590,7 @@ theorem eraseKey_head {α : Type} (k : Str) (v : α) (r : List (Str × α)) (h :
     `drop_extra_fields` — regardless of field sets, of the subclass set order, and of whether `D` derives from `b`. -/
 theorem c14_dc_types_top (R : List RCls) (π : Nat → List Nat) (fuel : Nat) (b D : Nat) (rD : RCls)
     (x : Str → Int) (drop : Option Bool)
-    (hD : R[D]? = some rD) (hloc : locate R rD.name = some D)
+    (hD : R[D]? = some rD) (hloc : locate R rD.name = some D) (hset : Settable rD)
     (hprim : ∀ f ∈ rD.fields, f.ty = .prim) (hnt : typeKey ∉ rD.fields.map (·.name)) :
     fromDict R π (fuel + 2) b (encV R true (.inst D (valOf x rD.fields))) drop = .ok (.inst D (valOf x rD.fields)) := by
   have henc : encV R true (.inst D (valOf x rD.fields)) = .obj ((typeKey, J.str rD.name) :: rawOf x rD.fields) := by
@@ -529,15 +598,8 @@ theorem c14_dc_types_top (R : List RCls) (π : Nat → List Nat) (fuel : Nat) (b
   have hk : typeKey ∉ (rawOf x rD.fields).map (·.1) := by rw [rawOf_keys]; exact hnt
   rw [henc, show fuel + 2 = (fuel + 1) + 1 from rfl, fromDict]
   simp only [lookupKey_head, hloc, eraseKey_head _ _ _ hk]
-  have hty : lookupKey typeKey (rawOf x rD.fields) = none := lookup_rawOf_none x _ _ hnt
-  have hkD : ∀ f ∈ rD.fields, lookupKey f.name (rawOf x rD.fields) = some (J.int (x f.name)) :=
-    fun f hf => lookup_rawOf x _ f hf
-  simp only [fromDict, hty, hD]
-  rw [decodeFields_prim _ _ _ x rD.fields hprim hkD]
-  have hno : ((rawOf x rD.fields).map (·.1)).filter (fun k => !(rD.fields.map (·.name)).contains k) = [] := by
-    rw [rawOf_keys]; apply filter_eq_nil_iff.mpr; intro k hk; simp [hk]
-  simp only [hno, isEmpty_nil, Bool.true_or, if_true]
-  rw [construct_all x rD.fields _ (fun f hf => lookup_valOf x rD.fields f hf)]
+  exact load_exact R π fuel D rD _ x drop hD hset (lookup_rawOf_none x _ _ hnt) hprim
+    (fun f hf => lookup_rawOf x _ f hf) (fun k hk' => by rw [rawOf_keys] at hk'; exact hk')
 
 /-- e.g. the sibling-with-identical-fields case that plain loading cannot tell apart: `D1` written with its type,
     loaded through `B0` with `drop_extra_fields=True`, candidates in an order that would otherwise favour `D2`/`D3` -/
@@ -571,7 +633,7 @@ def okV (R : List RCls) (items : Bool) : Val → Bool
   | .inst c fs =>
     match R[c]? with
     | some rc => (locate R rc.name == some c) && !((rc.fields.map (·.name)).contains typeKey)
-                 && okFields R items rc.fields fs
+                 && (!rc.frozen || rc.fields.all (·.init)) && okFields R items rc.fields fs
     | none => false
   | _ => false
 def okFields (R : List RCls) (items : Bool) : List Field → List (Str × Val) → Bool
@@ -722,7 +784,11 @@ theorem c14_dc_types_partial (R : List RCls) (π : Nat → List Nat) (v : Val) (
     | some rc =>
       unfold okV at hok
       simp only [hc, Bool.and_eq_true, beq_iff_eq, Bool.not_eq_true'] at hok
-      obtain ⟨⟨hloc, hnt⟩, hfs⟩ := hok
+      obtain ⟨⟨⟨hloc, hnt⟩, hsetb⟩, hfs⟩ := hok
+      have hset : Settable rc := by
+        rcases Bool.or_eq_true _ _ ▸ hsetb with h1 | h1
+        · exact Or.inl (by simpa using h1)
+        · exact Or.inr (fun f hf => by simpa using List.all_eq_true.mp h1 f hf)
       have hnt' : typeKey ∉ rc.fields.map (·.name) := by
         intro hm
         have : (rc.fields.map (·.name)).contains typeKey = true := by simpa using hm
@@ -759,6 +825,7 @@ theorem c14_dc_types_partial (R : List RCls) (π : Nat → List Nat) (v : Val) (
         rw [hkeys]; apply filter_eq_nil_iff.mpr; intro k hk; simp [hk]
       simp only [hno, isEmpty_nil, Bool.true_or, if_true]
       rw [construct_of_lookup rc.fields fs fs hnames (fun p hp => lookup_self fs hnd p hp)]
+      simp only [settable_ok rc _ hset, Bool.false_eq_true, if_false]
 /-- the field loop of `from_dict` on the serialized fields of a well-formed instance -/
 theorem dc_fields_partial (R : List RCls) (π : Nat → List Nat) (F : List Field) (fs : List (Str × Val))
     (hok : okFields R false F fs = true) (fuel : Nat) (hf : depthKV fs ≤ fuel) (kv : List (Str × J)) (e : Bool)
@@ -825,6 +892,389 @@ end
 example : okV (exR true) false (.inst 4 [("l".toList, .list []),
     ("f".toList, .inst 2 [("a".toList, .int 1), ("x".toList, .int 2), ("y".toList, .int 3)]),
     ("o".toList, .inst 1 [("a".toList, .int 4), ("x".toList, .int 5)])]) = true := by rfl
+
+
+/-! ### (R) the class table: `resolve` (definition order = process history), `descendants`, flag inheritance -/
+
+theorem resolve_foldl (acc : List RCls) (h : List Cls) (c : Cls) :
+    (h ++ [c]).foldl resolveStep acc = resolveStep (h.foldl resolveStep acc) c := by
+  simp [foldl_append]
+
+theorem resolveStep_length (acc : List RCls) (c : Cls) : (resolveStep acc c).length = acc.length + 1 := by
+  simp [resolveStep]
+
+theorem resolveStep_get_lt (acc : List RCls) (c : Cls) (i : Nat) (hi : i < acc.length) :
+    (resolveStep acc c)[i]? = acc[i]? := by
+  simp only [resolveStep]
+  exact getElem?_append_left hi
+
+/-- the field NAMES of a class: its parent's names, then the new names (a redeclared field keeps its place) -/
+theorem inheritFields_names (pf own : List Field) :
+    (inheritFields pf own).map (·.name)
+      = pf.map (·.name) ++ (own.filter (fun g => !(pf.map (·.name)).contains g.name)).map (·.name) := by
+  unfold inheritFields
+  rw [map_append, map_map]
+  congr 1
+  apply map_congr_left
+  intro f _
+  simp only [Function.comp]
+  cases hfind : own.find? (fun g => g.name == f.name) with
+  | none => rfl
+  | some g =>
+    have := find?_some hfind
+    simpa using this
+
+/-- what `resolve` guarantees about every class and each of its (strict) ancestors -/
+def TableInv (R : List RCls) : Prop :=
+  ∀ (i : Nat) (r : RCls), R[i]? = some r → ∀ a ∈ r.ancs, ∃ ra : RCls, R[a]? = some ra ∧ a < i ∧
+    (ra.fields.map (·.name)) <+: (r.fields.map (·.name)) ∧ ∀ a' ∈ ra.ancs, a' ∈ r.ancs
+
+theorem tableInv_step (acc : List RCls) (c : Cls) (hinv : TableInv acc) : TableInv (resolveStep acc c) := by
+  unfold TableInv at *
+  intro i r hi a ha
+  by_cases hlt : i < acc.length
+  · rw [resolveStep_get_lt acc c i hlt] at hi
+    obtain ⟨ra, h1, h2, h3, h4⟩ := hinv i r hi a ha
+    exact ⟨ra, by rw [resolveStep_get_lt acc c a (by omega)]; exact h1, h2, h3, h4⟩
+  · have hlen := resolveStep_length acc c
+    have hieq : i = acc.length := by
+      have : i < (resolveStep acc c).length := by
+        rcases Nat.lt_or_ge i (resolveStep acc c).length with h | h
+        · exact h
+        · rw [getElem?_eq_none_iff.mpr h] at hi; cases hi
+      omega
+    subst hieq
+    -- the class just defined
+    have hnew : (resolveStep acc c)[acc.length]? = some
+        { name := c.name,
+          fields := inheritFields (match c.parent.bind (fun i => (acc[i]?).map (fun r => (i, r))) with
+            | some (_, r) => r.fields | none => []) c.own,
+          dis := c.dis.getD (match c.parent.bind (fun i => (acc[i]?).map (fun r => (i, r))) with
+            | some (_, r) => r.dis | none => false),
+          ancs := (match c.parent.bind (fun i => (acc[i]?).map (fun r => (i, r))) with
+            | some (i, r) => i :: r.ancs | none => []),
+          frozen := c.frozen, mixin := c.mixin } := by
+      simp only [resolveStep]
+      rw [getElem?_append_right (Nat.le_refl _)]
+      simp only [Nat.sub_self, getElem?_cons_zero]
+      rfl
+    rw [hnew] at hi
+    cases hp : c.parent.bind (fun i => (acc[i]?).map (fun r => (i, r))) with
+    | none =>
+      rw [hp] at hi
+      have := (Option.some.inj hi)
+      subst this
+      simp at ha
+    | some pr =>
+      obtain ⟨p, rp⟩ := pr
+      rw [hp] at hi
+      have hr := (Option.some.inj hi)
+      subst hr
+      simp only at ha ⊢
+      -- `p` is a valid earlier class
+      have hpacc : acc[p]? = some rp := by
+        cases hc : c.parent with
+        | none => simp [hc] at hp
+        | some q =>
+          simp only [hc, Option.bind_some, Option.map_eq_some_iff] at hp
+          obtain ⟨r', hr', heq⟩ := hp
+          have : q = p ∧ r' = rp := by simpa using heq
+          rw [← this.1, ← this.2]; exact hr'
+      have hplt : p < acc.length := by
+        rcases Nat.lt_or_ge p acc.length with h | h
+        · exact h
+        · rw [getElem?_eq_none_iff.mpr h] at hpacc; cases hpacc
+      have hnames : (rp.fields.map (·.name)) <+: ((inheritFields rp.fields c.own).map (·.name)) := by
+        rw [inheritFields_names]; exact prefix_append _ _
+      rcases mem_cons.mp ha with rfl | ha'
+      · exact ⟨rp, by rw [resolveStep_get_lt acc c a hplt]; exact hpacc, hplt, hnames,
+          fun a' h' => mem_cons_of_mem _ h'⟩
+      · obtain ⟨ra, h1, h2, h3, h4⟩ := hinv p rp hpacc a ha'
+        exact ⟨ra, by rw [resolveStep_get_lt acc c a (by omega)]; exact h1, by omega, h3.trans hnames,
+          fun a' h' => mem_cons_of_mem _ (h4 a' h')⟩
+
+theorem tableInv_foldl (h : List Cls) (acc : List RCls) (hinv : TableInv acc) : TableInv (h.foldl resolveStep acc) := by
+  induction h generalizing acc with
+  | nil => exact hinv
+  | cons c cs ih => exact ih _ (tableInv_step acc c hinv)
+
+/-- **Children extend parents, for every table and every definition order**: in `resolve h` each strict ancestor of a
+    class is defined earlier and its field names are a prefix of the class's field names. -/
+theorem resolve_fields_prefix (h : List Cls) : TableInv (resolve h) :=
+  tableInv_foldl h [] (by unfold TableInv; intro i r hi; simp at hi)
+
+/-- `all_subclasses(b)` in the model: exactly the classes that have `b` among their strict ancestors -/
+theorem mem_descendants_iff (R : List RCls) (b i : Nat) :
+    i ∈ descendants R b ↔ ∃ r, R[i]? = some r ∧ b ∈ r.ancs := by
+  unfold descendants
+  simp only [mem_filter, mem_range]
+  constructor
+  · rintro ⟨hi, hm⟩
+    cases hr : R[i]? with
+    | none => simp [hr] at hm
+    | some r => exact ⟨r, rfl, by simpa [hr] using hm⟩
+  · rintro ⟨r, hr, hb⟩
+    refine ⟨?_, by simp [hr, hb]⟩
+    rcases Nat.lt_or_ge i R.length with h | h
+    · exact h
+    · rw [getElem?_eq_none_iff.mpr h] at hr; cases hr
+
+/-- **`decode_into_subclasses` is inherited at definition time** (serializable.py:202-217): the class defined by the
+    statement `c` on top of the classes `acc` gets its own stated value, else its parent's current value, else `False`. -/
+theorem resolve_dis (acc : List RCls) (c : Cls) :
+    ((resolveStep acc c)[acc.length]?).map (·.dis)
+      = some (c.dis.getD (match c.parent.bind (fun p => acc[p]?) with | some rp => rp.dis | none => false)) := by
+  simp only [resolveStep]
+  rw [getElem?_append_right (Nat.le_refl _)]
+  simp only [Nat.sub_self, getElem?_cons_zero, Option.map_some]
+  cases hc : c.parent with
+  | none => simp
+  | some q =>
+    cases hq : acc[q]? with
+    | none => simp [hq]
+    | some rq => simp [hq]
+
+/-- a flag stated on the class wins; an unstated one is the parent's; earlier classes are never touched by a later
+    definition (so the order of unrelated definitions is irrelevant) -/
+theorem resolve_earlier_unchanged (acc : List RCls) (c : Cls) (i : Nat) (hi : i < acc.length) :
+    (resolveStep acc c)[i]? = acc[i]? := resolveStep_get_lt acc c i hi
+
+/-- **Identified clause over a class table.**  `R = resolve h` for ANY list of class statements `h` (any hierarchy shape,
+    any definition order), `π b` ANY enumeration of `descendants R b` (the set `all_subclasses(b)`), `D` any descendant of
+    `b` that adds a field: the hypotheses `Derived.names`, `ExtendBase`, `D ∈ π b`, `D ≠ b` of `c14_identified` are
+    DERIVED from the table. -/
+theorem c14_identified_table (h : List Cls) (π : Nat → List Nat) (fuel : Nat) (b D : Nat) (rb rD : RCls)
+    (x : Str → Int) (drop : Option Bool)
+    (hb : (resolve h)[b]? = some rb) (hD : (resolve h)[D]? = some rD)
+    (hdesc : D ∈ descendants (resolve h) b) (hπ : (π b).Perm (descendants (resolve h) b))
+    (hadds : rD.fields.map (·.name) ≠ rb.fields.map (·.name))
+    (hpb : ∀ f ∈ rb.fields, f.ty = .prim) (hpD : ∀ f ∈ rD.fields, f.ty = .prim)
+    (hnd : (rD.fields.map (·.name)).Nodup) (hnt : typeKey ∉ rD.fields.map (·.name)) (hset : Settable rD)
+    (hkeep : drop.getD (if rb.mixin then false else !rb.dis) = false)
+    (huniq : Identifies (fieldNames (resolve h)) ((π b).filter (fun c => c ≠ b)) D) :
+    fromDict (resolve h) π (fuel + 2) b (encV (resolve h) false (.inst D (valOf x rD.fields))) drop
+      = .ok (.inst D (valOf x rD.fields)) := by
+  have hinv := resolve_fields_prefix h
+  obtain ⟨rD', hrD', hbD⟩ := (mem_descendants_iff _ b D).mp hdesc
+  rw [hD] at hrD'; cases hrD'
+  obtain ⟨rb', hrb', hlt, hpre, _⟩ := hinv D rD hD b hbD
+  rw [hb] at hrb'; cases hrb'
+  obtain ⟨extn, hextn⟩ := hpre
+  have hder : Derived (resolve h) b D rb rD extn := ⟨hb, hD, hextn.symm, hpb, hpD, hnd, hnt, hset⟩
+  have hext : extn ≠ [] := by
+    intro he; apply hadds; rw [← hextn, he, append_nil]
+  have hsubcls : ExtendBase (resolve h) (π b) b := by
+    intro c hc k hk
+    obtain ⟨rc, hrc, hbc⟩ := (mem_descendants_iff _ b c).mp (hπ.subset hc)
+    obtain ⟨rb'', hrb'', _, hpre', _⟩ := hinv c rc hrc b hbc
+    rw [hb] at hrb''; cases hrb''
+    rw [fieldNames_eq _ b rb hb] at hk
+    rw [fieldNames_eq _ c rc hrc]
+    exact hpre'.subset hk
+  exact c14_identified (resolve h) π fuel b D rb rD extn x drop hder hkeep hext hsubcls
+    (hπ.symm.subset hdesc) (by omega) huniq
+
+
+/-- the hypotheses of `c14_identified_table` are satisfiable on the example table: `D1` is a descendant of `B0`, and the
+    set order `[5, 3, 2, 1]` enumerates `descendants` -/
+example : 1 ∈ descendants (exR true) 0 ∧ ([5, 3, 2, 1] : List Nat).Perm (descendants (exR true) 0) := by decide
+example : exR true = resolve (exH true) := rfl
+
+/-! ### (E3) open finding `C14-frozen-noninit-setattr`: a frozen dataclass with an `init=False` field cannot be loaded -/
+
+def exFrozen : List RCls := resolve
+  [ mkCls "F0" none (some true) [fInt "a"] true,
+    mkCls "F2" (some 0) none [fInt "n" false] true,
+    mkCls "F3" (some 0) none [fInt "x"] true ]
+
+/-- loading the serialized form of an instance through its own class gives it back (full statement, no `Settable`) -/
+def LoadThroughSelfFull : Prop :=
+  ∀ (R : List RCls) (π : Nat → List Nat) (fuel : Nat) (b : Nat) (rb : RCls) (x : Str → Int) (drop : Option Bool),
+    R[b]? = some rb → (∀ f ∈ rb.fields, f.ty = .prim) → (rb.fields.map (·.name)).Nodup → typeKey ∉ rb.fields.map (·.name) →
+    fromDict R π (fuel + 1) b (encV R false (.inst b (valOf x rb.fields))) drop = .ok (.inst b (valOf x rb.fields))
+
+/-- **Witness.** `F2` (frozen, adds `n: init=False`): `from_dict` builds the instance and then `setattr(instance, "n", …)`
+    raises `FrozenInstanceError` (serializable.py:909) — through `F2` itself and through its base `F0`. -/
+theorem c14_frozen_noninit_witness : ¬ LoadThroughSelfFull := by
+  intro h
+  have := h exFrozen (fun _ => [1, 2]) 1 1 (exFrozen.getD 1 default) (fun _ => 7) none rfl (by decide) (by decide) (by decide)
+  have e : fromDict exFrozen (fun _ => [1, 2]) (1 + 1) 1
+      (encV exFrozen false (.inst 1 (valOf (fun _ => 7) (exFrozen.getD 1 default).fields))) none
+      = .raise "FrozenInstanceError".toList := by rfl
+  rw [e] at this
+  cases this
+example : fromDict exFrozen (fun _ => [1, 2]) 3 0
+    (encV exFrozen false (.inst 1 [("a".toList, .int 7), ("n".toList, .int 8)])) none = .raise "FrozenInstanceError".toList := by rfl
+/-- a frozen class WITHOUT `init=False` fields is `Settable` and loads fine (`c14_identified` applies) -/
+example : Settable (exFrozen.getD 2 default) := Or.inr (by decide)
+example : fromDict exFrozen (fun _ => [1, 2]) 3 0
+    (encV exFrozen false (.inst 2 [("a".toList, .int 7), ("x".toList, .int 8)])) none
+    = .ok (.inst 2 [("a".toList, .int 7), ("x".toList, .int 8)]) := by rfl
+
+/-! ### (E4) open finding `C14-nested-drop-forwarding`: a field annotated with a dataclass is decoded with the CONTAINER's
+    resolved `drop_extra_fields` (decoding.py:147-149), Optional/List/Dict items by the item class's own flag -/
+
+/-- "a dataclass-annotated field is decoded by its own class's `decode_into_subclasses`, like an Optional/List item" -/
+def NestedOwnFlag : Prop :=
+  ∀ (R : List RCls) (π : Nat → List Nat) (fuel : Nat) (c : Nat) (j : J) (e : Bool),
+    decodeField (fun c j dr => fromDict R π fuel c j dr) (.dc c) j e = fromDict R π fuel c j none
+
+/-- **Witness.** `Box(f: B0, o: Optional[B0], l: List[B0])`, `B0` decodes into subclasses, `Box` does not, all three hold
+    `D1(5, 6)`: `Box.from_dict(d)` gives `f = B0(a=5)` (x lost) but `o = D1`, `l = [D1]`. -/
+theorem c14_nested_forwarding_witness : ¬ NestedOwnFlag := by
+  intro h
+  have := h (exR true) (fun _ => [1, 2, 3, 5]) 3 0 (.obj [("a".toList, .int 5), ("x".toList, .int 6)]) true
+  have e1 : decodeField (fun c j dr => fromDict (exR true) (fun _ => [1, 2, 3, 5]) 3 c j dr) (.dc 0)
+      (.obj [("a".toList, .int 5), ("x".toList, .int 6)]) true = .ok (.inst 0 [("a".toList, .int 5)]) := by rfl
+  have e2 : fromDict (exR true) (fun _ => [1, 2, 3, 5]) 3 0 (.obj [("a".toList, .int 5), ("x".toList, .int 6)]) none
+      = .ok (.inst 1 [("a".toList, .int 5), ("x".toList, .int 6)]) := by rfl
+  rw [e1, e2] at this
+  injection this with h1
+  injection h1 with h2 _
+  exact absurd h2 (by decide)
+example : fromDict (exR true) (fun _ => [1, 2, 3, 5]) 6 4
+    (encV (exR true) false (.inst 4 [("l".toList, .list [.inst 1 [("a".toList, .int 5), ("x".toList, .int 6)]]),
+      ("f".toList, .inst 1 [("a".toList, .int 5), ("x".toList, .int 6)]),
+      ("o".toList, .inst 1 [("a".toList, .int 5), ("x".toList, .int 6)])])) none
+    = .ok (.inst 4 [("l".toList, .list [.inst 1 [("a".toList, .int 5), ("x".toList, .int 6)]]),
+      ("f".toList, .inst 0 [("a".toList, .int 5)]),
+      ("o".toList, .inst 1 [("a".toList, .int 5), ("x".toList, .int 6)])]) := by rfl
+
+/-! the set order decides between two siblings with the same field set — on `fromDict`, not only on `pick` -/
+example : fromDict (resolve [mkCls "B" none (some true) [fInt "a"], mkCls "E1" (some 0) none [fInt "x"],
+      mkCls "E2" (some 0) none [fInt "x"]]) (fun _ => [1, 2]) 3 0 (.obj [("a".toList, .int 1), ("x".toList, .int 2)]) none
+    = .ok (.inst 1 [("a".toList, .int 1), ("x".toList, .int 2)]) := by rfl
+example : fromDict (resolve [mkCls "B" none (some true) [fInt "a"], mkCls "E1" (some 0) none [fInt "x"],
+      mkCls "E2" (some 0) none [fInt "x"]]) (fun _ => [2, 1]) 3 0 (.obj [("a".toList, .int 1), ("x".toList, .int 2)]) none
+    = .ok (.inst 2 [("a".toList, .int 1), ("x".toList, .int 2)]) := by rfl
+
+/-! a child that REDECLARES an inherited field keeps the field's position (`dataclasses.fields`), and loading through
+    `Serializable` itself always decodes into subclasses -/
+example : ((resolve [mkCls "R0" none (some true) [fInt "a", fInt "b"], mkCls "R1" (some 0) none [fInt "a", fInt "c"]]).getD 1
+    default).fields.map (·.name) = ["a".toList, "b".toList, "c".toList] := by rfl
+example : fromDict (resolve [mkCls "Serializable" none none [] false true, mkCls "B" (some 0) none [fInt "a"],
+      mkCls "E1" (some 1) none [fInt "x"]]) (fun _ => [1, 2]) 3 0 (.obj [("a".toList, .int 1), ("x".toList, .int 2)]) none
+    = .ok (.inst 2 [("a".toList, .int 1), ("x".toList, .int 2)]) := by rfl
+
+
+/-! ### (G) clauses 1–3 for ARBITRARY field contents (nested dataclasses, Optional, List, Dict, any values): the class that
+    comes back does not depend on the field types or values, only on the key set — provided the fields decode at all -/
+
+/-- the required keys, by names only -/
+def reqN (R : List RCls) (b : Nat) (rb : RCls) (extn : List Str) : List Str :=
+  extn ++ (rb.fields.map (·.name)).filter (fun k => (initNames R b).contains k)
+
+theorem reqOf_eq_reqN (R : List RCls) (b : Nat) (rb : RCls) (extn : List Str) (x : Str → Int) :
+    reqOf R b rb extn x = reqN R b rb extn := by
+  have : (valOf x rb.fields).map (·.1) = rb.fields.map (·.name) := by
+    simp only [valOf, map_map]; rfl
+  simp only [reqOf, reqN, this]
+
+/-- what is needed of the serialized dict `kv` of a `D` instance and of the two classes (no field types, no values) -/
+structure DerivedKeys (R : List RCls) (b D : Nat) (rb rD : RCls) (extn : List Str) (kv : List (Str × J)) : Prop where
+  hb : R[b]? = some rb
+  hD : R[D]? = some rD
+  names : rD.fields.map (·.name) = rb.fields.map (·.name) ++ extn
+  keys : kv.map (·.1) = rD.fields.map (·.name)
+  nodup : (rD.fields.map (·.name)).Nodup
+  noTypeKey : lookupKey typeKey kv = none
+  settable : Settable rD
+
+/-- **Drop clause, any content.** If the base's fields decode (to whatever values `dec`) and the constructor accepts them,
+    the result is an instance of EXACTLY the base — whatever else the dict holds, whatever subclasses exist. -/
+theorem c14_drop_gen (R : List RCls) (π : Nat → List Nat) (fuel : Nat) (b : Nat) (rb : RCls) (kv : List (Str × J))
+    (drop : Option Bool) (dec fs : List (Str × Val))
+    (hb : R[b]? = some rb) (hset : Settable rb)
+    (hdrop : drop.getD (if rb.mixin then false else !rb.dis) = true) (hty : lookupKey typeKey kv = none)
+    (hdec : decodeFields (fun c j dr => fromDict R π fuel c j dr) true kv rb.fields = .ok dec)
+    (hcon : construct rb.fields dec = .ok fs) :
+    fromDict R π (fuel + 1) b (.obj kv) drop = .ok (.inst b fs) := by
+  simp only [fromDict, hty, hb, hdrop, hdec, Bool.or_true, if_true, hcon, settable_ok rb _ hset,
+    Bool.false_eq_true, if_false]
+
+/-- the first call through the base, any content: the choice is made on the key names alone -/
+theorem keep_step_gen (R : List RCls) (π : Nat → List Nat) (fuel : Nat) (b D : Nat) (rb rD : RCls)
+    (extn : List Str) (kv : List (Str × J)) (drop : Option Bool) (decB : List (Str × Val))
+    (h : DerivedKeys R b D rb rD extn kv) (hkeep : drop.getD (if rb.mixin then false else !rb.dis) = false)
+    (hext : extn ≠ [])
+    (hdecB : decodeFields (fun c j dr => fromDict R π (fuel + 1) c j dr) false kv rb.fields = .ok decB)
+    (hnamesB : decB.map (·.1) = rb.fields.map (·.name)) :
+    fromDict R π (fuel + 2) b (.obj kv) drop =
+      match pickSubclass R ((π b).filter (fun c => c ≠ b)) (reqN R b rb extn) with
+      | some child => fromDict R π (fuel + 1) child (.obj kv) (some false)
+      | none => .raise "RuntimeError".toList := by
+  obtain ⟨hb, hD, hnames, hkeys, hnd, hty, _⟩ := h
+  have hnd' := hnd
+  rw [hnames] at hnd'
+  have hdisj : ∀ k ∈ extn, k ∉ rb.fields.map (·.name) := fun k hk hk' =>
+    (nodup_append.mp hnd').2.2 k hk' k hk rfl
+  rw [show fuel + 2 = (fuel + 1) + 1 from rfl, fromDict]
+  simp only [hty, hb, hkeep, hdecB, hkeys, hnamesB, Bool.or_false]
+  have hextras : (rD.fields.map (·.name)).filter (fun k => !(rb.fields.map (·.name)).contains k) = extn := by
+    rw [hnames, filter_append]
+    have h1 : (rb.fields.map (·.name)).filter (fun k => !(rb.fields.map (·.name)).contains k) = [] := by
+      apply filter_eq_nil_iff.mpr; intro k hk; simp [hk]
+    have h2 : extn.filter (fun k => !(rb.fields.map (·.name)).contains k) = extn := by
+      apply filter_eq_self.mpr; intro k hk; simpa using hdisj k hk
+    rw [h1, h2, nil_append]
+  rw [hextras]
+  have hne : extn.isEmpty = false := by
+    cases extn with
+    | nil => exact absurd rfl hext
+    | cons e es => rfl
+  simp only [hne, Bool.false_eq_true, if_false, reqN]
+  rfl
+
+/-- **Identified clause, any content.**  Whatever the fields of `D` hold (nested instances, containers, any values): if
+    the base's fields decode and `D`'s own fields decode and construct `fs`, then loading through `b` returns an instance of
+    `D` — the class choice depends on the key names only — for every set order `π b`. -/
+theorem c14_identified_gen (R : List RCls) (π : Nat → List Nat) (fuel : Nat) (b D : Nat) (rb rD : RCls)
+    (extn : List Str) (kv : List (Str × J)) (drop : Option Bool) (decB decD fs : List (Str × Val))
+    (h : DerivedKeys R b D rb rD extn kv) (hkeep : drop.getD (if rb.mixin then false else !rb.dis) = false)
+    (hext : extn ≠ [])
+    (hdecB : decodeFields (fun c j dr => fromDict R π (fuel + 1) c j dr) false kv rb.fields = .ok decB)
+    (hnamesB : decB.map (·.1) = rb.fields.map (·.name))
+    (hdecD : decodeFields (fun c j dr => fromDict R π fuel c j dr) false kv rD.fields = .ok decD)
+    (hcon : construct rD.fields decD = .ok fs)
+    (hsubcls : ExtendBase R (π b) b) (hDπ : D ∈ π b) (hDb : D ≠ b)
+    (huniq : Identifies (fieldNames R) ((π b).filter (fun c => c ≠ b)) D) :
+    fromDict R π (fuel + 2) b (.obj kv) drop = .ok (.inst D fs) := by
+  have hDc : D ∈ (π b).filter (fun c => c ≠ b) := mem_filter.mpr ⟨hDπ, by simpa using hDb⟩
+  have hndI : (fieldNames R D).Nodup := by rw [fieldNames_eq R D rD h.hD]; exact h.nodup
+  have hcov : Covers (fieldNames R) D (reqN R b rb extn) := by
+    intro k hk
+    rw [fieldNames_eq R D rD h.hD, h.names]
+    rcases mem_append.mp hk with hk | hk
+    · exact mem_append_right _ hk
+    · exact mem_append_left _ (mem_filter.mp hk).1
+  have hfull : ∀ c ∈ (π b).filter (fun c => c ≠ b), Covers (fieldNames R) c (reqN R b rb extn) →
+      fieldNames R D ⊆ fieldNames R c := by
+    intro c hc hcv k hk
+    rw [fieldNames_eq R D rD h.hD, h.names] at hk
+    rcases mem_append.mp hk with hk | hk
+    · exact hsubcls c (mem_filter.mp hc).1 k (by rw [fieldNames_eq R b rb h.hb]; exact hk)
+    · exact hcv k (mem_append_left _ hk)
+  rw [keep_step_gen R π fuel b D rb rD extn kv drop decB h hkeep hext hdecB hnamesB, pickSubclass_eq,
+    c14_identified_pick (fieldNames R) _ _ D hDc hndI hcov hfull huniq]
+  have hno : (kv.map (·.1)).filter (fun k => !(rD.fields.map (·.name)).contains k) = [] := by
+    rw [h.keys]; apply filter_eq_nil_iff.mpr; intro k hk; simp [hk]
+  simp only [fromDict, h.noTypeKey, h.hD, Option.getD_some, hdecD, hno, isEmpty_nil, Bool.true_or, if_true, hcon,
+    settable_ok rD _ h.settable, Bool.false_eq_true, if_false]
+
+/-- non-vacuity with nested content: `D6(B0)` adds `f: Box`-like nested fields — here `Box` (class 4) holding a list, a
+    dataclass and an Optional — loaded through … itself is covered by `c14_dc_types_partial`; for the key-only theorem take the
+    example table's `Box` extended by one field -/
+def exG : List RCls := resolve
+  [ mkCls "B0" none (some true) [fInt "a"],
+    mkCls "D1" (some 0) none [fInt "x"],
+    mkCls "P" none (some true) [⟨"f".toList, true, .dc 0, some .none⟩],
+    mkCls "Q" (some 2) none [⟨"l".toList, true, .list 0, some (.list [])⟩, fInt "k"] ]
+
+example : fromDict exG (fun c => if c = 2 then [3] else [1]) 6 2
+    (encV exG false (.inst 3 [("f".toList, .inst 1 [("a".toList, .int 1), ("x".toList, .int 2)]),
+      ("l".toList, .list [.inst 1 [("a".toList, .int 3), ("x".toList, .int 4)]]), ("k".toList, .int 9)])) none
+    = .ok (.inst 3 [("f".toList, .inst 1 [("a".toList, .int 1), ("x".toList, .int 2)]),
+      ("l".toList, .list [.inst 1 [("a".toList, .int 3), ("x".toList, .int 4)]]), ("k".toList, .int 9)]) := by rfl
 
 
 end SpVerif.C14
